@@ -53,7 +53,8 @@ def lang_rel(L):
         C.cbool(L.lang == "java"), L.any_bid)
 
 
-SHAPE = {0: "nothing-changed", 1: "one-site", 2: "several-nodes-differ", 3: "other-type-slot-differs", 4: "not-only-types-differ"}
+SHAPE = {0: "nothing-changed", 1: "one-site", 2: "several-nodes-differ", 3: "other-type-slot-differs", 4: "not-only-types-differ",
+         5: "erased-type-argument-overwritten"}
 REL = {0: "unrelated", 1: "new-is-subtype-of-old", 2: "new-is-supertype-of-old", 3: "convertible-at-language-level", 5: "unknown"}
 
 
@@ -86,7 +87,7 @@ def run(tier, seed, replay=None):
                     p = handprogs.build(lang, sd)
                 else:
                     p = progs.generate(lang, sd)
-                if s % 2 == 0 and not directed:
+                if s % 2 == 0:
                     te = TypeErasure(p, lang, None, {"timeout": 600})
                     te.transform()
                     p = te.result()
@@ -105,7 +106,7 @@ def run(tier, seed, replay=None):
                 crashes.append((lang, sd, "%s: %s" % (type(e).__name__, str(e)[:150])))
                 continue
             items.append(dict(lang=lang, seed=sd, L=L, n1=n1, n2=n2, ser=after, transformed=bool(to.is_transformed),
-                              msg=to.error_injected, erased_first=(s % 2 == 0 and not directed), directed=directed,
+                              msg=to.error_injected, erased_first=(s % 2 == 0), directed=directed,
                               pickled=pickle.dumps(p2)))
     t_gen = time.time() - t0
     per = 4
